@@ -8,6 +8,7 @@ hashed, then model_validate(model_dump(exclude_unset=True)); constructor with ev
 its default; constructor giving every Term two extra attributes in the order a, b or b, a).  In "enc" cases the vocabulary tags and the query tags may be written differently (vprov / qprov).
 """
 import datetime
+import numpy as np
 import uuid as _uuid
 import warnings
 
@@ -28,8 +29,8 @@ ENUM = {
 }
 POOL = 12
 CHUNK = 4000
-RULE = ("enc: every (injective vocabulary of <= 3 of 5 (quick) / 6 (thorough) tags over terms sharing a name or a label, plus tags on terms sharing a URI under different names / a name under different URIs, tag list of <= 3 with "
-        "repeats and outsiders, two quarter-score patterns) of the TLA+ enumeration, plus random vocabularies of <= 8 of 15 "
+RULE = ("enc: every (injective vocabulary of <= 3 of 5 (quick) / 6 (thorough) tags over terms sharing a name or a label, plus tags on terms sharing a URI under different names / a name under different URIs and tags whose values differ only by surrounding whitespace, tag list of <= 3 with "
+        "repeats and outsiders, two quarter-score patterns) of the TLA+ enumeration, plus random vocabularies of <= 8 of 17 "
         "tags with lists of <= 8; pair: every ordered pair of freshly built objects of the eight hashable classes over two- to "
         "four-value field domains, plus model-equal (quick) / at most one field apart (thorough) pairs whose members were "
         "derived from an already hashed object by model_copy(update), attribute assignment, deep copy or a dump/validate "
@@ -39,7 +40,8 @@ TRUSTED_BASE = ["checks/c19.py (build tags/objects from tables, call the encoder
                 "scores read back as exact quarter ticks)"]
 ASSUMPTIONS = ["vocabularies hold pairwise distinct tags (quantifier of the statement)",
                "quarter scores are exact in float32/float64, so score vectors are compared exactly",
-               "object pairs are built from small field domains; NaN feature values (never equal to themselves) are not generated"]
+               "object pairs are built from small field domains (Feature values include NaN: two separately built NaN features are not "
+               "equal on the tree, which the contract allows; a patch that makes them equal must also make them hash alike)"]
 
 # ---------------------------------------------------------------- universe of the enc cases
 _TERMS = [
@@ -51,9 +53,9 @@ _TERMS = [
     dict(name="n5", label="l4", definition="d", uri="u1"),   # T6  T5's URI under another name
     dict(name="n4", label="l4", definition="d", uri="u2"),   # T7  T5's name and label under another URI
 ]
-_VALUES = ["a", "b", "c"]
+_VALUES = ["a", "b", "c", "a ", " a"]          # the last two differ from "a" only by surrounding whitespace
 _UTAG = [(1, 1), (1, 2), (2, 1), (3, 1), (4, 1), (4, 2), (2, 2), (3, 2), (1, 3), (2, 3), (3, 3), (4, 3),
-         (5, 1), (6, 1), (7, 1)]
+         (5, 1), (6, 1), (7, 1), (1, 4), (1, 5)]
 
 
 _WRITE = {"explicit": False, "extras": None}      # how terms / objects are written down inside a _written(...) block
@@ -174,7 +176,8 @@ FIELDS = {
                     ("definition", lambda k: ["d1", "d2"][k - 1]), ("extra_note", lambda k: None if k == 1 else "e"),
                     ("uri", lambda k: [None, "u1", "u2"][k - 1]), ("comment", lambda k: None if k == 1 else "c")], {}),
     2: (data.Tag, [("term", _term), ("value", lambda k: _VALUES[k - 1])], {}),
-    3: (data.Feature, [("term", _term), ("value", lambda k: [0.0, -0.0, 0.5][k - 1])], {}),
+    # values 4 and 5 are NaN: a new float("nan") object per build, and numpy's nan
+    3: (data.Feature, [("term", _term), ("value", lambda k: [0.0, -0.0, 0.5, float("nan"), np.nan][k - 1])], {}),
     4: (data.Note, [("uuid", lambda k: _U[k - 1]), ("message", lambda k: ["m1", "m2"][k - 1]),
                     ("is_issue", lambda k: k == 2), ("created_on", lambda k: _T[k - 1])], {}),
     5: (data.SoundEvent, [("uuid", lambda k: _U[k - 1]), ("geometry", _geom), ("recording", _rec),
@@ -189,7 +192,7 @@ FIELDS = {
                               ("tags", lambda k: [] if k == 1 else [_PTAG()]),
                               ("features", lambda k: [] if k == 1 else [_FEAT()])], {}),
 }
-_DOM = {1: [2, 2, 2, 2, 3, 2], 2: [7, 2], 3: [7, 3], 4: [2, 2, 2, 2], 5: [2, 2, 2, 2], 6: [2, 2, 2, 2], 7: [2, 2, 2, 2], 8: [2, 2, 2, 2]}
+_DOM = {1: [2, 2, 2, 2, 3, 2], 2: [7, 2], 3: [7, 5], 4: [2, 2, 2, 2], 5: [2, 2, 2, 2], 6: [2, 2, 2, 2], 7: [2, 2, 2, 2], 8: [2, 2, 2, 2]}
 
 
 def _build(cls, x):
@@ -252,13 +255,13 @@ def execute(case):
 
 
 def random_cases(rng, tier):
-    """Larger vocabularies (<= 8 of all 15 universe tags) and longer lists (<= 8) than TLC enumerates."""
+    """Larger vocabularies (<= 8 of all 17 universe tags) and longer lists (<= 8) than TLC enumerates."""
     n = 1500 if tier == "quick" else 15000
     for _ in range(n):
         nv = rng.randrange(0, 9)
-        vocab = rng.sample(range(1, 16), nv)
+        vocab = rng.sample(range(1, 18), nv)
         lt = rng.randrange(0, 9)
-        pool = vocab if (vocab and rng.random() < 0.3) else list(range(1, 16))
+        pool = vocab if (vocab and rng.random() < 0.3) else list(range(1, 18))
         tags = [rng.choice(pool) for _ in range(lt)]
         if tags and rng.random() < 0.5:           # force repeats
             tags[rng.randrange(lt)] = tags[0]
@@ -290,7 +293,7 @@ MANIFEST = {
              "written differently, so a hash that remembers a derivation or sees which fields were set is refuted (controls "
              "history/MC_Encoding_hash_memo, _hash_fields_set, _hash_extras_order, _eq_uri; Terms also carry two extra "
              "attributes given in either order; the encoder is also judged against the OBSERVED equality "
-             "of query and vocabulary tags, EncodeIffObservedEqual) -- plus random vocabularies of <= 8 of 15 tags "
+             "of query and vocabulary tags, EncodeIffObservedEqual) -- plus random vocabularies of <= 8 of 17 tags "
              "with lists of <= 8, and TLC validates the observations clause by clause."),
     "note": ("trusted: TLC, binder checks/c19.py (encoder; objects rebuilt for every use so identity cannot help); the hash "
              "clause is the contract, not the projection: different but sound hashes pass (mutants/C19/must_pass)"),
